@@ -201,6 +201,20 @@ def r18_2(ctx):
     wel = [(n, c) for (n, c) in sends if ast.unparse(c.args[0]) == 'WELCOME']
     fai = [(n, c) for (n, c) in sends if ast.unparse(c.args[0]) == 'FAILURE']
     ok = len(wel) >= 1 and all(q.has_guard(dc, n, eq, True) for (n, c) in wel)
+    # the verdict computed once and sent with one call: accepted = <eq>; send_bytes(WELCOME if accepted else FAILURE);
+    # if not accepted: raise AuthenticationError
+    one_call = None
+    for (n, c) in sends:
+        a0 = c.args[0] if c.args else None
+        if isinstance(a0, ast.IfExp) and ast.unparse(a0.body) == 'WELCOME' and ast.unparse(a0.orelse) == 'FAILURE':
+            t = a0.test
+            tdefs = [d for (dn, t_, d) in q.assigns(dc, t.id)] if isinstance(t, ast.Name) else [t]
+            if len(tdefs) == 1 and tdefs[0] is not None and q.norm_guard(dc, tdefs[0], True) in [(e, True) for e in eq[:1]] + \
+                    [(q.eq_text(dname, rname), True)]:
+                one_call = (n, c, q.norm_guard(dc, t, True)[0])
+    if one_call is not None and not wel:
+        ok = True
+        wel = [(one_call[0], one_call[1])]
     ctx.ob('R18.2', 'deliver_challenge:welcome-only-for-the-exact-digest', ok, dc, wel[0][1] if wel else None,
            'send WELCOME only under %s == %s (whole-value equality)' % (rname, dname))
     wrong = q.outcome_edges(dc, eq, False)
@@ -211,6 +225,15 @@ def r18_2(ctx):
         ok = cfg.exit.id not in r
         r2 = cfg.reach([b for (a, b, l) in wrong], block_nodes={n.id for (n, c) in fai}, include_src=True, skip_labels=('x',))
         ok = ok and not any(n.id in r2 for n in rz) and not any(n.id in cfg.reach([b for (a, b, l) in wrong], include_src=True) for (n, c) in wel)
+    if one_call is not None and not fai:
+        # refused: the raise is reached exactly when the verdict is false, after the (single) send
+        acc = one_call[2]
+        ok = bool(rz) and all(q.has_guard(dc, n, acc, False) for n in rz) and \
+            all(cfg.dominated_by(n, [one_call[0]])[0] for n in rz)
+        if ok:
+            r = cfg.reach([b for (a, b, l) in q.outcome_edges(dc, acc, False)], block_nodes={n.id for n in rz},
+                          include_src=True, skip_labels=('x',))
+            ok = cfg.exit.id not in r
     ctx.ob('R18.2', 'deliver_challenge:wrong-digest-is-refused', ok, dc, None,
            'on any other response: send FAILURE, raise AuthenticationError, never WELCOME')
     ac = m.func('connection:answer_challenge')
@@ -237,7 +260,8 @@ def r18_2(ctx):
     ctx.ob('R18.2', 'answer_challenge:strips-exactly-the-prefix', ok, ac, strip[0][0] if strip else None,
            '%s = %s[len(CHALLENGE):] (the challenge bytes themselves are never altered)' % (m2n, m2n))
     pre = [n for n in cfg2.where(lambda n: n.kind == 'stmt' and isinstance(n.ast, ast.Assert)
-                                 and ast.unparse(n.ast.test).replace(' ', '') == '%s[:len(CHALLENGE)]==CHALLENGE' % m2n)]
+                                 and ast.unparse(n.ast.test).replace(' ', '') in (
+                                     '%s[:len(CHALLENGE)]==CHALLENGE' % m2n, '%s.startswith(CHALLENGE)' % m2n))]
     pre += [t for t in cfg2.where(lambda t: t.kind == 'test') if
             ac.canon(t.ast).replace(' ', '') in ('%s[:len(CHALLENGE)]==CHALLENGE' % m2n, '%s.startswith(CHALLENGE)' % m2n)]
     ok = bool(pre) and bool(strip) and cfg2.dominated_by(strip[0][0], pre)[0]
